@@ -17,7 +17,7 @@ LEVEL_TEXT = (
     'trace uses the caller\'s seed. Wall-clock bounds and "reaches the target when more states exist" '
     'are not decided.')
 
-FLOORS = {'C12-R1': 24, 'C12-R2': 6, 'C12-R3': 8, 'C12-R4': 3, 'C05-R1': 6, 'C12-R6': 4, 'C12-R7': 4}
+FLOORS = {'C12-R1': 24, 'C12-R2': 6, 'C12-R3': 8, 'C12-R4': 3, 'C05-R1': 6, 'C05-R10': 2, 'C12-R6': 4, 'C12-R7': 4}
 
 OPTIONS = ('finish_when', 'target_state_count', 'target_max_depth', 'timeout', 'visitor', 'thread_count')
 
@@ -434,6 +434,11 @@ def run(ctx):
     r4_depth_before_eval(ctx, F)
     with ctx.rule('C05-R1', 'job_market'):
         c05.r1_no_blocking_under_lock(ctx, F)
+    # an unexpired timeout changes nothing: configuring one must not alter the worker accounting
+    ctx.doc('C05-R10', 'JobBroker::new: open_count and thread_count start as the thread_count parameter '
+                       '(independent of whether a timeout is configured)')
+    with ctx.rule('C05-R10', 'new'):
+        c05.r10_initial_market(ctx, F)
     r6_shutdown_observed(ctx, F)
     with ctx.rule('C12-R7', 'SIM'):
         r7_seed(ctx, F)
